@@ -12,7 +12,8 @@ Line-protocol front end of the C15 model.
 
 from which the harness prints RSSL source.  This front end rebuilds the registries the type checker
 produces for that source (namespace ids in order of first opening, structs / enums / globals / functions in
-declaration order, local variables = parameters then body locals, function by function) and runs the
+declaration order, enum values right after their enum, local variables = parameters then body locals,
+function by function, usage analysis = every global / function named by a `use` in a function body) and runs the
 model of `NameMap::build` with the reserved list of the target.
 -/
 namespace RsslVerif.Driver.C15
@@ -21,7 +22,9 @@ open RsslVerif.Model.Names RsslVerif.Driver
 structure PState where
   nss : Array (Option Nat × String) := #[]
   structs : Array (Option Nat × String) := #[]
-  enums : Array (Option Nat × String) := #[]
+  /-- enums and their values in push order: (scope, name, isValue) -/
+  enums : Array (Option Nat × String × Bool) := #[]
+  used : Array Sym := #[]
   globals : Array (Option Nat × String) := #[]
   funcs : Array (Option Nat × String) := #[]
   locals : Array String := #[]
@@ -29,16 +32,30 @@ structure PState where
 def findNs (st : PState) (parent : Option Nat) (name : String) : Option Nat :=
   (List.range st.nss.size).find? fun i => st.nss[i]! == (parent, name)
 
-/-- skip tokens up to and including the matching `end` (members / values carry no names for `build`) -/
+/-- skip tokens up to and including the matching `end` (struct members carry no names for `build`) -/
 def skipToEnd : List String → List String
   | [] => []
   | "end" :: r => r
   | _ :: r => skipToEnd r
 
+/-- the tokens before the matching `end` -/
+def takeToEnd : List String → List String
+  | [] => []
+  | "end" :: _ => []
+  | x :: r => x :: takeToEnd r
+
+/-- `use G3` / `use F1` inside a function body: the symbol enters the usage analysis -/
+def useSym (r : String) : Option Sym :=
+  match r.toList with
+  | 'G' :: ds => (String.ofList ds).toNat?.map (⟨.global, ·⟩)
+  | 'F' :: ds => (String.ofList ds).toNat?.map (⟨.func, ·⟩)
+  | _ => none
+
 partial def parseStmts (st : PState) : List String → Option (PState × List String)
   | "}" :: r => some (st, r)
   | "lv" :: n :: r => parseStmts { st with locals := st.locals.push n } r
-  | "use" :: _ :: r => parseStmts st r
+  | "use" :: u :: r =>
+    parseStmts (match useSym u with | some y => { st with used := st.used.push y } | none => st) r
   | "{" :: r =>
     match parseStmts st r with
     | some (st', r') => parseStmts st' r'
@@ -56,7 +73,9 @@ partial def parseItems (st : PState) (cur : Option Nat) (top : Bool) : List Stri
     | some (st2, r2) => parseItems st2 cur top r2
     | none => none
   | "st" :: n :: r => parseItems { st with structs := st.structs.push (cur, n) } cur top (skipToEnd r)
-  | "en" :: n :: r => parseItems { st with enums := st.enums.push (cur, n) } cur top (skipToEnd r)
+  | "en" :: n :: r =>
+    let vals := (takeToEnd r).map fun v => (cur, v, true)
+    parseItems { st with enums := (st.enums.push (cur, n, false)) ++ vals.toArray } cur top (skipToEnd r)
   | "gl" :: n :: r => parseItems { st with globals := st.globals.push (cur, n) } cur top r
   | "fn" :: n :: pt :: r =>
     let np := if pt == "-" then 0 else pt.length
@@ -73,8 +92,15 @@ partial def parseItems (st : PState) (cur : Option Nat) (top : Bool) : List Stri
 def toInput (st : PState) : Input :=
   let mk (k : Kind) (xs : Array (Option Nat × String)) : List Entry :=
     (List.range xs.size).map fun i => ⟨⟨k, i⟩, xs[i]!.1, xs[i]!.2⟩
+  -- enums and values keep their interleaved push order; ids count each kind separately
+  let enumEntries : List Entry :=
+    (st.enums.toList.foldl (fun (acc : List Entry × Nat × Nat) x =>
+      let (es, ne, nv) := acc
+      if x.2.2 then (es ++ [⟨⟨.enumValue, nv⟩, x.1, x.2.1⟩], ne, nv + 1)
+      else (es ++ [⟨⟨.enum, ne⟩, x.1, x.2.1⟩], ne + 1, nv)) ([], 0, 0)).1
   { nss := st.nss.toList
-    entries := mk .struct st.structs ++ mk .enum st.enums ++ mk .global st.globals ++ mk .func st.funcs
+    entries := mk .struct st.structs ++ enumEntries ++ mk .global st.globals ++ mk .func st.funcs
+    used := st.used.toList
     locals := st.locals.toList }
 
 def parseProgram (s : String) : Option Input :=
@@ -88,7 +114,7 @@ def showNames (names : List Named) : String :=
     match qualified names n.sym with
     | .ok q => n.sym.kind.letter ++ toString n.sym.id ++ "=" ++ "::".intercalate q
     | .error e => n.sym.kind.letter ++ toString n.sym.id ++ "!" ++ e
-  let order : List Kind := [.ns, .struct, .enum, .global, .func, .localVar]
+  let order : List Kind := [.ns, .struct, .enum, .enumValue, .global, .func, .localVar]
   let sorted := order.flatMap fun k =>
     let ks := names.filter (fun n => n.sym.kind == k)
     (List.range ks.length).filterMap fun i => ks.find? (fun n => n.sym.id == i)
